@@ -21,17 +21,24 @@
 #include "opentelemetry/sdk/common/global_log_handler.h"
 #include "opentelemetry/sdk/resource/resource.h"
 #include "opentelemetry/sdk/trace/batch_span_processor.h"
+#include "opentelemetry/sdk/trace/batch_span_processor_factory.h"
 #include "opentelemetry/sdk/trace/batch_span_processor_options.h"
+#include "opentelemetry/sdk/trace/batch_span_processor_runtime_options.h"
 #include "opentelemetry/sdk/trace/exporter.h"
 #include "opentelemetry/sdk/trace/processor.h"
 #include "opentelemetry/sdk/trace/random_id_generator.h"
 #include "opentelemetry/sdk/trace/samplers/always_on.h"
 #include "opentelemetry/sdk/trace/simple_processor.h"
+#include "opentelemetry/sdk/trace/simple_processor_factory.h"
 #include "opentelemetry/sdk/trace/span_data.h"
 #include "opentelemetry/sdk/trace/tracer_context_factory.h"
 #include "opentelemetry/sdk/trace/tracer_provider.h"
 #include "opentelemetry/sdk/trace/tracer_provider_factory.h"
+#include "opentelemetry/context/context.h"
+#include "opentelemetry/trace/context.h"
+#include "opentelemetry/trace/default_span.h"
 #include "opentelemetry/trace/span_context_kv_iterable.h"
+#include "opentelemetry/trace/span_metadata.h"
 #include "opentelemetry/trace/span_startoptions.h"
 
 namespace trace_api = opentelemetry::trace;
@@ -44,6 +51,7 @@ using vh::Exact;
 struct Canon
 {
   bool group_events   = false;  // the case has a concurrent section: print events grouped by first name byte (stable)
+  bool scope_attrs    = false;  // the tracer was requested with scope attributes (ABI v2): print them behind the scope
   bool start_explicit = false;
   int64_t start       = 0;
   std::vector<int64_t> ends;
@@ -107,7 +115,9 @@ static std::string show_span(const trace_sdk::SpanData &sd, const Canon &canon)
   if (it == ra.end() || !nostd::holds_alternative<std::string>(it->second)) s += " res=null";
   else s += " res=" + vh::to_hex(nostd::get<std::string>(it->second));
   auto &sc = sd.GetInstrumentationScope();
-  s += " scope=" + vh::to_hex(sc.GetName()) + "/" + vh::to_hex(sc.GetVersion()) + "/" + vh::to_hex(sc.GetSchemaURL()) + "}";
+  s += " scope=" + vh::to_hex(sc.GetName()) + "/" + vh::to_hex(sc.GetVersion()) + "/" + vh::to_hex(sc.GetSchemaURL());
+  if (canon.scope_attrs) s += vh::show_map(sc.GetAttributes().GetAttributes());
+  s += "}";
   return s;
 }
 
@@ -169,6 +179,41 @@ private:
   std::shared_ptr<Log> log_;
 };
 
+// a processor that hands out no recordable (MakeRecordable() == nullptr): kind `z`, used by the candidate-finding cases only
+class NoRecordable final : public trace_sdk::SpanProcessor
+{
+public:
+  std::unique_ptr<trace_sdk::Recordable> MakeRecordable() noexcept override { return nullptr; }
+  void OnStart(trace_sdk::Recordable &, const trace_api::SpanContext &) noexcept override {}
+  void OnEnd(std::unique_ptr<trace_sdk::Recordable> &&) noexcept override {}
+  bool ForceFlush(std::chrono::microseconds) noexcept override { return true; }
+  bool Shutdown(std::chrono::microseconds) noexcept override { return true; }
+};
+
+// the real processor of kind `s` / `b`: built through its constructor or through its factory (both Create overloads of the batch
+// factory), chosen by `how` (a hash of the case text plus the processor's index, so that a case replays the same way)
+static std::unique_ptr<trace_sdk::SpanProcessor> make_processor(char kind,
+                                                                std::unique_ptr<trace_sdk::SpanExporter> exp,
+                                                                size_t how)
+{
+  if (kind == 's')
+  {
+    if (how % 2 == 1) return trace_sdk::SimpleSpanProcessorFactory::Create(std::move(exp));
+    return std::unique_ptr<trace_sdk::SpanProcessor>(new trace_sdk::SimpleSpanProcessor(std::move(exp)));
+  }
+  trace_sdk::BatchSpanProcessorOptions o;
+  // exports when flushed; the timer is only a safety net: BatchSpanProcessor::ForceFlush re-polls with this period
+  // when its wake-up of the worker is lost (the worker was between its predicate check and its wait)
+  o.schedule_delay_millis = std::chrono::milliseconds(2000);
+  if (how % 3 == 1) return trace_sdk::BatchSpanProcessorFactory::Create(std::move(exp), o);
+  if (how % 3 == 2)
+  {
+    trace_sdk::BatchSpanProcessorRuntimeOptions ro;
+    return trace_sdk::BatchSpanProcessorFactory::Create(std::move(exp), o, ro);
+  }
+  return std::unique_ptr<trace_sdk::SpanProcessor>(new trace_sdk::BatchSpanProcessor(std::move(exp), o));
+}
+
 struct LinkArg
 {
   trace_api::SpanContext ctx{false, false};
@@ -187,6 +232,63 @@ struct Links : public trace_api::SpanContextKeyValueIterable
   }
   size_t size() const noexcept override { return links.size(); }
 };
+
+// ---- the container / initializer-list overloads of the API headers (Tracer::StartSpan, Span::AddEvent, Span::AddLink,
+// Span::AddLinks): every one of them must record exactly what the virtual entry point records
+using Pair    = std::pair<nostd::string_view, common::AttributeValue>;
+using PairVec = std::vector<Pair>;
+using IPairs  = std::initializer_list<Pair>;
+using LinkVec = std::vector<std::pair<trace_api::SpanContext, PairVec>>;
+using ILink   = std::pair<trace_api::SpanContext, IPairs>;
+using ILinks  = std::initializer_list<ILink>;
+
+static PairVec to_pairs(const vh::Attrs &a)
+{
+  PairVec v;
+  for (auto &kv : a.kvs) v.emplace_back(nostd::string_view(kv.key->data(), kv.key->size()), kv.val->get());
+  return v;
+}
+
+static LinkVec to_links(const std::vector<LinkArg> &ls)
+{
+  LinkVec lv;
+  for (auto &l : ls) lv.emplace_back(l.ctx, to_pairs(*l.attrs));
+  return lv;
+}
+
+// calls f with a braced initializer list of the (at most 3) pairs; the list's backing array lives until f has returned
+template <class F>
+static void with_ilist(const PairVec &v, F &&f)
+{
+  switch (v.size())
+  {
+    case 0: f(IPairs{}); break;
+    case 1: f(IPairs{v[0]}); break;
+    case 2: f(IPairs{v[0], v[1]}); break;
+    default: f(IPairs{v[0], v[1], v[2]}); break;
+  }
+}
+
+// at most 2 links with at most 3 attributes each, as a braced list of (context, braced attribute list)
+static bool ilinks_ok(const LinkVec &lv)
+{
+  if (lv.size() > 2) return false;
+  for (auto &l : lv)
+    if (l.second.size() > 3) return false;
+  return true;
+}
+
+template <class F>
+static void with_ilinks(const LinkVec &lv, F &&f)
+{
+  if (lv.empty()) f(ILinks{});
+  else if (lv.size() == 1)
+    with_ilist(lv[0].second, [&](IPairs a0) { f(ILinks{ILink{lv[0].first, a0}}); });
+  else
+    with_ilist(lv[0].second, [&](IPairs a0) {
+      with_ilist(lv[1].second, [&](IPairs a1) { f(ILinks{ILink{lv[0].first, a0}, ILink{lv[1].first, a1}}); });
+    });
+}
 
 #if OPENTELEMETRY_ABI_VERSION_NO >= 2
 static const char *const kEngine = "span2";
@@ -260,7 +362,8 @@ static bool parse_op(std::vector<std::string> t, Op &op)
   if (op.kind == "end" && t.size() == 2) return vh::parse_i(64, t[1], op.n);
   if ((op.kind == "flush" || op.kind == "isrec") && t.size() == 1) return true;
   // a processor attached to the provider while the span is in flight: it must see nothing of this span
-  if (op.kind == "addproc" && t.size() == 2 && op.thread < 0 && (t[1] == "s" || t[1] == "b"))
+  // (`addproc n` = AddProcessor(nullptr): ignored by the provider, no processor comes into being)
+  if (op.kind == "addproc" && t.size() == 2 && op.thread < 0 && (t[1] == "s" || t[1] == "b" || t[1] == "n"))
   {
     op.s1 = t[1];
     return true;
@@ -288,12 +391,18 @@ static std::string handle(const std::vector<std::string> &toks)
   const std::string &procs = c[0];
   if (procs.empty() || procs.size() > 8) return "bad-op";
   for (char k : procs)
-    if (k != 's' && k != 'b') return "bad-op";
+    if (k != 's' && k != 'b' && k != 'z') return "bad-op";
   std::string res, sname, sver, sschema, name;
   if (!vh::from_hex(c[1], res)) return "bad-op";
   auto sc = vh::split_on(c[2], '/');
-  if (sc.size() != 3 || !vh::from_hex(sc[0], sname) || !vh::from_hex(sc[1], sver) || !vh::from_hex(sc[2], sschema))
+  if (sc.size() < 3 || sc.size() > 5 || !vh::from_hex(sc[0], sname) || !vh::from_hex(sc[1], sver) || !vh::from_hex(sc[2], sschema))
     return "bad-op";
+  // <name>/<version>/<schema>/<attrs>[/<decoy attrs>]: scope attributes (ABI v2 only)
+  {
+    vh::Attrs probe;
+    for (size_t i = 3; i < sc.size(); i++)
+      if (OPENTELEMETRY_ABI_VERSION_NO < 2 || !probe.parse(sc[i])) return "bad-op";
+  }
   if (!vh::from_hex(c[3], name)) return "bad-op";
   unsigned __int128 kind;
   if (!vh::parse_nat(c[4], kind) || kind >= 5) return "bad-op";
@@ -329,12 +438,17 @@ static std::string handle(const std::vector<std::string> &toks)
       }
     }
   }
+  canon.scope_attrs    = sc.size() > 3;
   canon.start_explicit = steady != 0;
   canon.start          = steady;
   for (auto &op : ops)
     if (op.kind == "end" && op.n != 0) canon.ends.push_back(op.n);
 
   // ---- the pipeline
+  size_t case_hash = 1469598103u;  // FNV-style hash of the case text: selects constructor / factory per processor
+  for (auto &t : toks)
+    for (unsigned char ch : t) case_hash = (case_hash ^ ch) * 16777619u;
+  case_hash >>= 3;
   std::vector<std::shared_ptr<Log>> logs;
   std::vector<std::unique_ptr<trace_sdk::SpanProcessor>> processors;
   for (char k : procs)
@@ -342,15 +456,8 @@ static std::string handle(const std::vector<std::string> &toks)
     auto log = std::make_shared<Log>();
     std::unique_ptr<trace_sdk::SpanExporter> exp(new LogExporter(log, &canon));
     std::unique_ptr<trace_sdk::SpanProcessor> inner;
-    if (k == 's') inner.reset(new trace_sdk::SimpleSpanProcessor(std::move(exp)));
-    else
-    {
-      trace_sdk::BatchSpanProcessorOptions o;
-      // exports when flushed; the timer is only a safety net: BatchSpanProcessor::ForceFlush re-polls with this period
-      // when its wake-up of the worker is lost (the worker was between its predicate check and its wait)
-      o.schedule_delay_millis = std::chrono::milliseconds(2000);
-      inner.reset(new trace_sdk::BatchSpanProcessor(std::move(exp), o));
-    }
+    if (k == 'z') inner.reset(new NoRecordable);
+    else inner = make_processor(k, std::move(exp), case_hash + processors.size());
     processors.emplace_back(new Counting(std::move(inner), log));
     logs.push_back(log);
   }
@@ -378,7 +485,40 @@ static std::string handle(const std::vector<std::string> &toks)
       provider = std::make_shared<trace_sdk::TracerProvider>(std::move(processors), resource, sampler(), idgen());
   }
   nostd::shared_ptr<trace_api::Tracer> tracer;
+#if OPENTELEMETRY_ABI_VERSION_NO >= 2
+  // scope attributes: the pointer form, the container template and the initializer-list overload of GetTracer rotate; every
+  // request comes from fresh buffers that die right after it.  A decoy request (same name / version / schema, other
+  // attributes) goes first: its tracer is dropped, the provider must not hand it out again for the real request
+  auto get_tracer_with = [&](const std::string &attrtok, size_t how) {
+    Exact a(sname), b(sver), d(sschema);
+    nostd::string_view n1(a.data(), a.size()), n2(b.data(), b.size()), n3(d.data(), d.size());
+    std::unique_ptr<vh::Attrs> at(new vh::Attrs);
+    at->parse(attrtok);
+    PairVec av = to_pairs(*at);
+    nostd::shared_ptr<trace_api::Tracer> t;
+    if (how % 3 == 1) t = provider->GetTracer(n1, n2, n3, av);
+    else if (how % 3 == 2 && av.size() <= 3) with_ilist(av, [&](IPairs ia) { t = provider->GetTracer(n1, n2, n3, ia); });
+    else t = provider->GetTracer(n1, n2, n3, static_cast<const common::KeyValueIterable *>(at.get()));
+    return t;
+  };
+  if (sc.size() > 3)
   {
+    if (sc.size() > 4) get_tracer_with(sc[4], sc[4].size());
+    tracer = get_tracer_with(sc[3], sc[3].size() + sname.size());
+    if ((sname.size() + sschema.size()) % 2 == 1) tracer = get_tracer_with(sc[3], sc[3].size() + sver.size());
+  }
+  else
+#endif
+  {
+    Exact a(sname), b(sver), d(sschema);
+    // an empty scope name is also requested as a default-constructed view (data() == nullptr)
+    nostd::string_view nv = (sname.empty() && sver.size() % 2 == 1) ? nostd::string_view()
+                                                                    : nostd::string_view(a.data(), a.size());
+    tracer = provider->GetTracer(nv, nostd::string_view(b.data(), b.size()), nostd::string_view(d.data(), d.size()));
+  }
+  if (sc.size() == 3 && (sname.size() + sschema.size()) % 2 == 1)
+  {
+    // a second request for the same scope (from fresh buffers): the span is started from what it returns
     Exact a(sname), b(sver), d(sschema);
     tracer = provider->GetTracer(nostd::string_view(a.data(), a.size()), nostd::string_view(b.data(), b.size()),
                                  nostd::string_view(d.data(), d.size()));
@@ -387,36 +527,63 @@ static std::string handle(const std::vector<std::string> &toks)
   {
     std::unique_ptr<Exact> nm(new Exact(name));
     trace_api::StartSpanOptions o;
+    // (pr == 3 below) no parent option, but a span is ACTIVE on this thread while StartSpan runs: the implicit parent
+    nostd::shared_ptr<trace_api::Span> active_parent;
     o.kind              = static_cast<trace_api::SpanKind>(static_cast<int>(kind));
     o.start_system_time = common::SystemTimestamp(std::chrono::nanoseconds(sys));
     o.start_steady_time = common::SteadyTimestamp(std::chrono::nanoseconds(steady));
-    // Tracer::StartSpan has one virtual entry point and a family of template overloads in the API header that wrap
-    // containers into the iterable views; which one is used depends on the case (deterministically): they must all start
-    // the same span
-    using PairVec = std::vector<std::pair<nostd::string_view, common::AttributeValue>>;
-    auto to_pairs = [](const vh::Attrs &a) {
-      PairVec v;
-      for (auto &kv : a.kvs) v.emplace_back(nostd::string_view(kv.key->data(), kv.key->size()), kv.val->get());
-      return v;
-    };
-    nostd::string_view nsv(nm->data(), nm->size());
-    const size_t ov = (name.size() + start_attrs->kvs.size() + links->links.size()) % 3;
-    if (ov == 0)
-      span = tracer->StartSpan(nsv, *start_attrs, *links, o);
-    else if (links->links.empty() && start_attrs->kvs.empty() && ov == 1)
-      span = tracer->StartSpan(nsv, o);
-    else if (links->links.empty())
+    // the parent option (explicit span context / context holding a span / empty context / root context) decides identity
+    // only (C05); the record compared here must not depend on it
     {
-      PairVec av = to_pairs(*start_attrs);
-      span       = tracer->StartSpan(nsv, av, o);
+      const size_t pr = (sname.size() + 3 * name.size() + procs.size() + sschema.size()) % 8;
+      static const uint8_t ptid[16] = {0xa1, 2, 3, 4, 5, 6, 7, 8, 9, 10, 11, 12, 13, 14, 15, 16};
+      static const uint8_t psid[8]  = {0xb1, 2, 3, 4, 5, 6, 7, 8};
+      trace_api::SpanContext psc(trace_api::TraceId(nostd::span<const uint8_t, 16>(ptid, 16)),
+                                 trace_api::SpanId(nostd::span<const uint8_t, 8>(psid, 8)),
+                                 trace_api::TraceFlags(trace_api::TraceFlags::kIsSampled), pr % 2 == 0);
+      if (pr == 3) active_parent = nostd::shared_ptr<trace_api::Span>(new trace_api::DefaultSpan(psc));
+      else if (pr == 4) o.parent = psc;
+      else if (pr == 5)
+      {
+        opentelemetry::context::Context base;
+        o.parent = trace_api::SetSpan(base, nostd::shared_ptr<trace_api::Span>(new trace_api::DefaultSpan(psc)));
+      }
+      else if (pr == 6) o.parent = opentelemetry::context::Context{};
+      else if (pr == 7) o.parent = opentelemetry::context::Context{}.SetValue(trace_api::kIsRootSpanKey, true);
+    }
+    // Tracer::StartSpan has one virtual entry point and a family of overloads in the API header that wrap containers and
+    // braced initializer lists into the iterable views; which one is used depends on the case (deterministically): they
+    // must all start the same span
+    nostd::string_view nsv(nm->data(), nm->size());
+    std::unique_ptr<trace_api::Scope> active_scope;
+    if (active_parent) active_scope.reset(new trace_api::Scope(trace_api::Tracer::WithActiveSpan(active_parent)));
+    const size_t ov  = (name.size() + start_attrs->kvs.size() + links->links.size()) % 3;
+    const size_t sub = (res.size() + sname.size() + sver.size()) % 4;
+    PairVec av       = to_pairs(*start_attrs);
+    LinkVec lv       = to_links(links->links);
+    const bool small_attrs = av.size() <= 3, small_links = ilinks_ok(lv);
+    if (ov == 0)
+    {
+      if (lv.empty() && sub % 2 == 1)  // KeyValueIterable without links (NullSpanContext inside)
+        span = tracer->StartSpan(nsv, static_cast<const common::KeyValueIterable &>(*start_attrs), o);
+      else
+        span = tracer->StartSpan(nsv, *start_attrs, *links, o);
+    }
+    else if (lv.empty() && av.empty() && ov == 1)
+      span = tracer->StartSpan(nsv, o);
+    else if (lv.empty())
+    {
+      if (small_attrs && sub % 2 == 1) with_ilist(av, [&](IPairs ia) { span = tracer->StartSpan(nsv, ia, o); });
+      else span = tracer->StartSpan(nsv, av, o);
     }
     else
     {
-      PairVec av = to_pairs(*start_attrs);
-      std::vector<std::pair<trace_api::SpanContext, PairVec>> lv;
-      for (auto &l : links->links) lv.emplace_back(l.ctx, to_pairs(*l.attrs));
-      span = tracer->StartSpan(nsv, av, lv, o);
+      if (small_links && sub == 1) with_ilinks(lv, [&](ILinks il) { span = tracer->StartSpan(nsv, av, il, o); });
+      else if (small_links && small_attrs && sub == 3)
+        with_ilist(av, [&](IPairs ia) { with_ilinks(lv, [&](ILinks il) { span = tracer->StartSpan(nsv, ia, il, o); }); });
+      else span = tracer->StartSpan(nsv, av, lv, o);
     }
+    active_scope.reset();  // the implicit parent is no longer active
     nm.reset();
     start_attrs.reset();  // frees every key / value / array block of the start attributes
     links.reset();
@@ -425,9 +592,16 @@ static std::string handle(const std::vector<std::string> &toks)
   std::string late_kinds;  // processors added by `addproc`, in order
   const bool has_batch = procs.find('b') != std::string::npos ||
                          std::any_of(ops.begin(), ops.end(), [](const Op &o) { return o.kind == "addproc" && o.s1 == "b"; });
-  auto flush           = [&]() {
+  size_t nflush = 0, nend = 0;
+  auto flush    = [&]() {
     // let a just-started / just-finished batch worker reach its wait, so that ForceFlush's wake-up is not lost
     if (has_batch) vh::wait_parked();
+#if OPENTELEMETRY_ABI_VERSION_NO == 1
+    // ABI v1: the tracer's own ForceFlush / Close flush the shared context exactly like the provider does
+    const size_t how = nflush++ % 3;
+    if (how == 1) { tracer->ForceFlush((std::chrono::microseconds::max)()); return; }
+    if (how == 2) { tracer->Close((std::chrono::microseconds::max)()); return; }
+#endif
     provider->ForceFlush();
   };
   auto run = [&](Op &op) {
@@ -445,8 +619,15 @@ static std::string handle(const std::vector<std::string> &toks)
     {
       std::unique_ptr<vh::Attrs> a(new vh::Attrs);
       a->parse(op.attrtok);
-      // the virtual entry points and the container templates of the API header alternate with the attribute count
-      if (a->kvs.size() % 2 == 0)
+      // the virtual entry points, the container templates and the initializer-list overloads of the API header rotate with
+      // the attribute count and the name length
+      if (a->kvs.size() <= 3 && op.s1.size() % 3 == 1)
+      {
+        PairVec av = to_pairs(*a);
+        if (op.kind == "eva") with_ilist(av, [&](IPairs ia) { span->AddEvent(sv, ia); });
+        else with_ilist(av, [&](IPairs ia) { span->AddEvent(sv, common::SystemTimestamp(std::chrono::nanoseconds(op.n)), ia); });
+      }
+      else if (a->kvs.size() % 2 == 0)
       {
         if (op.kind == "eva") span->AddEvent(sv, static_cast<const common::KeyValueIterable &>(*a));
         else span->AddEvent(sv, common::SystemTimestamp(std::chrono::nanoseconds(op.n)),
@@ -460,27 +641,30 @@ static std::string handle(const std::vector<std::string> &toks)
         else span->AddEvent(sv, common::SystemTimestamp(std::chrono::nanoseconds(op.n)), av);
       }
     }
-    else if (op.kind == "status") span->SetStatus(static_cast<trace_api::StatusCode>(op.n), sv);
+    else if (op.kind == "status")
+    {
+      // an empty description is also given through the default argument
+      if (op.s1.empty() && op.n % 2 == 1) span->SetStatus(static_cast<trace_api::StatusCode>(op.n));
+      else span->SetStatus(static_cast<trace_api::StatusCode>(op.n), sv);
+    }
     else if (op.kind == "name") span->UpdateName(sv);
     else if (op.kind == "end")
     {
       trace_api::EndSpanOptions eo;
       eo.end_steady_time = common::SteadyTimestamp(std::chrono::nanoseconds(op.n));
-      span->End(eo);
+      // "no end time given" is also expressed by the default argument
+      if (op.n == 0 && nend++ % 2 == 1) span->End();
+      else span->End(eo);
     }
     else if (op.kind == "flush") flush();
+    else if (op.kind == "addproc" && op.s1 == "n")
+      provider->AddProcessor(std::unique_ptr<trace_sdk::SpanProcessor>());  // ignored: no processor, nothing to report
     else if (op.kind == "addproc")
     {
       auto log = std::make_shared<Log>();
       std::unique_ptr<trace_sdk::SpanExporter> exp(new LogExporter(log, &canon));
       std::unique_ptr<trace_sdk::SpanProcessor> inner;
-      if (op.s1 == "s") inner.reset(new trace_sdk::SimpleSpanProcessor(std::move(exp)));
-      else
-      {
-        trace_sdk::BatchSpanProcessorOptions o;
-        o.schedule_delay_millis = std::chrono::milliseconds(2000);
-        inner.reset(new trace_sdk::BatchSpanProcessor(std::move(exp), o));
-      }
+      inner = make_processor(op.s1[0], std::move(exp), case_hash + logs.size());
       provider->AddProcessor(std::unique_ptr<trace_sdk::SpanProcessor>(new Counting(std::move(inner), log)));
       logs.push_back(log);
       late_kinds.push_back(op.s1[0]);
@@ -491,8 +675,24 @@ static std::string handle(const std::vector<std::string> &toks)
     {
       std::unique_ptr<Links> ls(new Links);
       parse_links(op.linktok, ls->links);
-      if (op.kind == "link") span->AddLink(ls->links[0].ctx, *ls->links[0].attrs);
-      else span->AddLinks(*ls);
+      // virtual entry points, container templates and initializer-list overloads rotate with the shape of the argument
+      LinkVec lv = to_links(ls->links);
+      size_t na  = 0;
+      for (auto &l : lv) na += l.second.size();
+      const size_t how = (lv.size() + na) % 3;
+      if (op.kind == "link")
+      {
+        if (how == 1) span->AddLink(lv[0].first, lv[0].second);
+        else if (how == 2 && lv[0].second.size() <= 3)
+          with_ilist(lv[0].second, [&](IPairs ia) { span->AddLink(lv[0].first, ia); });
+        else span->AddLink(ls->links[0].ctx, *ls->links[0].attrs);
+      }
+      else
+      {
+        if (how == 1) span->AddLinks(lv);
+        else if (how == 2 && ilinks_ok(lv)) with_ilinks(lv, [&](ILinks il) { span->AddLinks(il); });
+        else span->AddLinks(*ls);
+      }
       // the link list, its contexts and attribute blocks die here
     }
 #endif
@@ -535,7 +735,13 @@ static std::string handle(const std::vector<std::string> &toks)
     else run(op);
   }
   span = nostd::shared_ptr<trace_api::Span>(nullptr);  // last reference: ~Span -> End()
-  flush();
+  // the final flush is a ForceFlush or (a quarter of the cases) the provider's Shutdown, which must export what is queued too
+  if ((procs.size() + name.size() + res.size()) % 4 == 3)
+  {
+    if (has_batch) vh::wait_parked();
+    provider->Shutdown();
+  }
+  else flush();
   std::string out = "rec=[" + vh::join(rec, ",") + "]";
   for (size_t i = 0; i < logs.size(); i++)
   {
